@@ -66,9 +66,11 @@ def make_files(h, wd, rng):
             lines.append(f"NORTH_ROT = {north_rot}")
         lines += ["UNITS = Counts", "CH0_ID = V", "CH1_ID = N", "CH2_ID = E", "####--------------------------------"]
         lines += [f"{cols[2][i]} {cols[0][i]} {cols[1][i]}" for i in range(n)]
-        with open(os.path.join(wd, f"{stem}.saf"), "w") as f_:
+        # (a file name is a name, not a pattern: the second SAF file carries square brackets, as instrument software likes to write them)
+        fname_ = f"{stem}.saf" if stem == "saf1" else f"{stem}[b].saf"
+        with open(os.path.join(wd, fname_), "w") as f_:
             f_.write("\n".join(lines) + "\n")
-        names[stem] = f"{stem}.saf"
+        names[stem] = fname_
     pre = h.HvsrPreProcessingSettings(window_length_in_seconds=120.0, filter_corner_frequencies_in_hz=[None, None], detrend="linear")
     pro = h.HvsrTraditionalProcessingSettings(smoothing=dict(operator="konno_and_ohmachi", bandwidth=40, center_frequencies_in_hz=np.geomspace(0.5, 20, 16)))
     pre.save(os.path.join(wd, "pre.json"))
@@ -151,6 +153,8 @@ def main():
         raise MachineryError("the shared-settings configuration did not produce the expected counterexample")
     # ---- real CLI --------------------------------------------------------------------------------
     names = make_files(h, wd, rng)
+    OUT = {f_: os.path.splitext(names[f_])[0] + ".csv" for f_ in names}             # <stem of the input file>.csv
+    STEM_OF = {os.path.splitext(os.path.basename(names[f_]))[0]: f_ for f_ in names}
     refs = Refs(wd)
     sres = tlc("Cli", "Cli_swap", timeout=600)
     run.notes["negative_config_swapped_options_breaks_OptionsReachWriter"] = (sres.violated == "OptionsReachWriter")
@@ -213,7 +217,7 @@ def main():
         #  other settings / options - the command line is run again in the same directory - and must write what ITS settings give)
         for stem in (ALL_STEMS if ci == 0 else ()):
             try:
-                os.remove(os.path.join(wd, f"{stem}.csv"))
+                os.remove(os.path.join(wd, OUT[stem]))
             except FileNotFoundError:
                 pass
         tf = os.path.join(wd, f"hook_{ci}.txt")
@@ -238,13 +242,13 @@ def main():
         ev = []
         for line in (open(tf) if os.path.exists(tf) else ()):      # (no task started at all: no hook file; judged below)
             pid, sid, fname, nb, na = line.split()
-            ev.append(dict(pid=int(pid), sid=int(sid), file=fname.replace(".mseed", "").replace(".saf", ""), nb=NCLASS.get(None if nb == "None" else int(nb), 9),
+            ev.append(dict(pid=int(pid), sid=int(sid), file=STEM_OF.get(os.path.splitext(os.path.basename(fname))[0], fname), nb=NCLASS.get(None if nb == "None" else int(nb), 9),
                            na=NCLASS.get(None if na == "None" else int(na), 9)))
         # with an explicit n in the settings file every task legitimately starts from class 1 (32 768): class 0/1 coincide
         runs.append(dict(files=list(files), nproc=nproc, opts=list(opts), ev=[dict(file=e["file"], nb=e["nb"], na=e["na"]) for e in ev]))
         key_cfg = f"files={list(files)} nproc={nproc} settings={pro_file} options={dist_opts}"
         for f in files:
-            out = os.path.join(wd, f"{f}.csv")
+            out = os.path.join(wd, OUT[f])
             if not os.path.exists(out):
                 run.violation("cli:missing-output", f"{key_cfg}: {f}.csv was not written", dict(kind="cli", files=files, nproc=nproc))
                 continue
@@ -279,7 +283,7 @@ def main():
         run.violation("cli:failed:with-figure", f"hvsrpy CLI (figures on) exited with {p.returncode}: {p.stdout[-400:]}", dict(kind="cli-fig"))
     else:
         for f in fig_files:
-            out = os.path.join(wd, f"{f}.csv")
+            out = os.path.join(wd, OUT[f])
             ref = refs.get(f, "pro.json", ("lognormal", "lognormal"))
             if not os.path.exists(out):
                 run.violation("cli:missing-output:with-figure", f"figures on: {f}.csv was not written", dict(kind="cli-fig", file=f))
